@@ -154,21 +154,24 @@ def run_cfg(wrappers, case, wd, tag, cfg, intermediate, timeout=300):
     return t
 
 
-def smallest_memory(wrappers, case, wd, extra):
+def smallest_memory(wrappers, case, wd, extra, timeout=120):
     """Smallest accepted -S in bytes for the given other options (bisection over 64 b .. 64 KB;
     rejected runs exit before reading the corpus).  None if even 64 KB is rejected."""
     cfg = lambda b: dict(mem="%db" % b, opts=list(extra), tkind="dir", sched="plain")
     lo, hi = 64, 64 << 10
-    if run_cfg(wrappers, case, wd, "smin", cfg(hi), False)["cls"] != "ok":
+    if run_cfg(wrappers, case, wd, "smin", cfg(hi), False, timeout=timeout)["cls"] != "ok":
         return None
     steps = 0
     while hi - lo > 16 and steps < 14:
         mid = (lo + hi) // 2
         steps += 1
-        if run_cfg(wrappers, case, wd, "smin", cfg(mid), False)["cls"] == "ok":
+        c = run_cfg(wrappers, case, wd, "smin", cfg(mid), False, timeout=timeout)["cls"]
+        if c == "ok":
             hi = mid
-        else:
+        elif c == "config":
             lo = mid
+        else:
+            return hi       # crash / hang: not a rejection; the grid runs at `hi` and around it report it
     return hi
 
 
